@@ -487,32 +487,48 @@ def build_prng(kind, bw, bpc=None):
 
 
 def prng_schedule(rng, kind, bw, bpc, style, seeds=None):
+    """run-length encoded rows (load, req, seed, count); idle stretches hold one random seed value"""
     seedw = {'lfsr': 127, 'xoro': 128, 'triv': 160}[kind]
     g = {'lfsr': 1, 'xoro': -(-bw // 64), 'triv': -(-bw // (bpc or 1))}[kind]
     warm = (1152 // bpc + 1) if kind == 'triv' else 1
     rows = []
-    idle = lambda n: rows.extend((0, 0, rng.getrandbits(seedw)) for _ in range(n))  # noqa: E731
+
+    def idle(n):
+        while n > 0:
+            m = n if n < 4 else rng.randint(1, n)
+            rows.append((0, 0, rng.getrandbits(seedw), m))
+            n -= m
     if style == 'protocol':   # load, wait for ready, a few requests each awaited, reseed, request again
         idle(rng.randint(0, 2))
         for si in range(2):
             s = seeds[si] if seeds and si < len(seeds) else rng.getrandbits(seedw) | 1
-            rows.append((1, rng.getrandbits(1), s))
+            rows.append((1, rng.getrandbits(1), s, 1))
             idle(warm - 1 + rng.randint(0, 2) + (1 if kind == 'triv' else 0))
             for _ in range(rng.randint(2, 3)):
-                rows.append((0, 1, rng.getrandbits(seedw)))
+                rows.append((0, 1, rng.getrandbits(seedw), 1))
                 idle(g + rng.randint(0, 2))
     else:                     # arbitrary interleaving
-        n = warm + 6 * g + 30
-        warmed = False
+        n = 6 * g + 30
+        if kind == 'triv':    # one (possibly cut short) warm-up, then random pulses incl. rare reloads
+            idle(rng.randint(0, 3))
+            rows.append((1, 0, rng.getrandbits(seedw), 1))
+            idle(rng.choice([warm, warm, max(1, warm // 2), warm - 1]))
         for t in range(n):
-            if kind == 'triv' and not warmed and rng.random() < 0.5:
-                rows.append((1, 0, rng.getrandbits(seedw)))
-                idle(rng.choice([warm, warm, max(1, warm // 2)]))
-                warmed = True
-                continue
             pl = 0.03 if kind == 'triv' else 0.1
-            rows.append((1 if rng.random() < pl else 0, 1 if rng.random() < (0.6 / g + 0.1) else 0, rng.getrandbits(seedw)))
+            rows.append((1 if rng.random() < pl else 0, 1 if rng.random() < (0.6 / g + 0.1) else 0,
+                         rng.getrandbits(seedw), 1))
     return rows
+
+
+def expand(rows):
+    out = []
+    for (l, r, s, n) in rows:
+        out.extend([(l, r, s)] * n)
+    return out
+
+
+def quads(rows):
+    return '(expand [' + '; '.join('(%d,%d,%d,%d)' % tuple(r) for r in rows) + '])'
 
 
 def prng_configs(ctx):
@@ -525,11 +541,13 @@ def prng_configs(ctx):
                 cfgs.append(('xoro', bw, None, style, rep))
     for bw in BITWIDTHS:
         for bpc in BPCS:
-            if quick and not (bw in (7, 65, 128, 200) or bpc in (64,) or (bw, bpc) in ((256, 1), (1, 1), (129, 2))):
-                continue
             for style in ('protocol', 'random'):
-                if quick and style == 'random' and bpc < 8 and bw not in (7, 65):
-                    continue
+                if quick:
+                    keep = ((bw in (7, 128) and style == 'protocol') or bpc == 64 or
+                            (bw, bpc) in ((65, 8), (200, 16), (129, 32), (63, 4), (1, 1)) or
+                            (style == 'random' and (bw, bpc) in ((256, 2), (65, 16), (127, 32), (200, 8))))
+                    if not keep:
+                        continue
                 for rep in range(1 if quick else 2):
                     cfgs.append(('triv', bw, bpc, style, rep))
     return cfgs
@@ -550,16 +568,17 @@ def check_prngs(ctx):
     # the suite's Trivium vectors through the documented protocol
     vec_rows = []
     for s, _ in TRIVIUM_VECTORS:
-        vec_rows += [(1, 0, s)] + [(0, 0, 0)] * 19 + [(0, 1, 0)] + [(0, 0, 0)] * 2
-    cases.append((('triv', 128, 64, 'suite-vectors', 0), vec_rows + [(0, 0, 0)]))
+        vec_rows += [(1, 0, s, 1), (0, 0, 0, 19), (0, 1, 0, 1), (0, 0, 0, 2)]
+    cases.append((('triv', 128, 64, 'suite-vectors', 0), vec_rows + [(0, 0, 0, 1)]))
     for cfg in prng_configs(ctx):
         kind, bw, bpc, style, rep = cfg
         rng = ctx.sub_rng('prng', *cfg)
         cases.append((cfg, prng_schedule(rng, kind, bw, bpc, style)))
     exprs_m, exprs_s = [], []
     impl = []
-    for cfg, rows in cases:
+    for cfg, rle in cases:
         kind, bw, bpc, style, rep = cfg
+        rows = expand(rle)
         sim = build_prng(kind, bw, bpc)
         ref = {'lfsr': lambda: RefLfsr(bw), 'xoro': lambda: RefXoroshiro(bw), 'triv': lambda: RefTrivium(bw, bpc)}[kind]()
         tr, rf = [], []
@@ -575,18 +594,19 @@ def check_prngs(ctx):
                 rf.append(list(want))
         impl.append((tr, rf))
         if kind == 'lfsr':
-            exprs_m.append('lfsr_trace %d %s' % (bw, triples(rows)))
-            exprs_s.append('s_lfsr_trace %d %s' % (bw, triples(rows)))
+            exprs_m.append('lfsr_trace %d %s' % (bw, quads(rle)))
+            exprs_s.append('s_lfsr_trace %d %s' % (bw, quads(rle)))
         elif kind == 'xoro':
-            exprs_m.append('xo_trace %d %s' % (bw, triples(rows)))
-            exprs_s.append('s_xo_trace %d %s' % (bw, triples(rows)))
+            exprs_m.append('xo_trace %d %s' % (bw, quads(rle)))
+            exprs_s.append('s_xo_trace %d %s' % (bw, quads(rle)))
         else:
-            exprs_m.append('tv_trace %d %d %s' % (bw, bpc, triples(rows)))
-            exprs_s.append('s_tv_trace %d %d %s' % (bw, bpc, triples(rows)))
+            exprs_m.append('tv_trace %d %d %s' % (bw, bpc, quads(rle)))
+            exprs_s.append('s_tv_trace %d %d %s' % (bw, bpc, quads(rle)))
     res_m = ctx.coq_eval(exprs_m, IMPORTS, tag='prngm', shard=6, jobs=12)
     res_s = ctx.coq_eval(exprs_s, IMPORTS, tag='prngs', shard=6, jobs=12)
-    for (cfg, rows), (tr, rf), rm, rs in zip(cases, impl, res_m, res_s):
+    for (cfg, rle), (tr, rf), rm, rs in zip(cases, impl, res_m, res_s):
         kind, bw, bpc, style, rep = cfg
+        rows = expand(rle)
         nready = sum(1 for x in tr if kind != 'lfsr' and x[0]) if kind != 'lfsr' else sum(1 for r in rows if r[1])
         ctx.case((cfg, tuple(map(tuple, rows[:50]))), nontrivial=nready > 0,
                  sample={'generator': kind, 'bitwidth': bw, 'bits_per_cycle': bpc, 'schedule': style, 'cycles': len(rows),
@@ -599,7 +619,7 @@ def check_prngs(ctx):
         ctx.count('prng-cycles', kind, len(rows))
         ctx.count('prng-ready-pulses', kind, nready)
         rep_d = {'generator': kind, 'bitwidth': bw, 'bits_per_cycle': bpc, 'schedule_style': style, 'seed': ctx.seed,
-                 'rows': [[a, b, hex(c)] for a, b, c in rows] if len(rows) < 400 else 'regenerate with ctx.sub_rng(%r)' % (('prng',) + cfg,)}
+                 'rows_rle(load,req,seed,count)': [[a, b, hex(c), n] for a, b, c, n in rle]}
         if rs != rf:
             ctx.model_mismatch('Lib/PrngSpec.v and the Python reference disagree on %s' % (cfg,), rep_d)
         if tr != rf or tr != rs:
